@@ -276,7 +276,11 @@ func runPipeline(setup c07Setup, sess mSession, now time.Time, relay string) (re
 			for _, at := range st.Attributes {
 				ma := mAttribute{Friendly: at.FriendlyName, Name: at.Name, Format: at.NameFormat}
 				for _, v := range at.Values {
-					ma.Values = append(ma.Values, mAttrValue{Type: v.Type, Value: v.Value})
+					mv := mAttrValue{Type: v.Type, Value: v.Value}
+					if v.NameID != nil {
+						mv.NameID = &mNameID{v.NameID.Format, v.NameID.NameQualifier, v.NameID.SPNameQualifier, v.NameID.Value}
+					}
+					ma.Values = append(ma.Values, mv)
 				}
 				res.attrs = append(res.attrs, ma)
 			}
